@@ -38,6 +38,13 @@ Theorem C20_filepool : forall n hs,
 Proof. intros n hs. split; [apply filepool_open_all | apply filepool_exit_closes]. Qed.
 Print Assumptions C20_filepool.
 
+(* however it is left, part 2: when one of the paths cannot be opened the with-statement raises before the body; none of the
+   k handles opened before the failure stays open (for every k), and after a normal exit no handle is open whatever the body did *)
+Theorem C20_filepool_failing_open : forall k hs,
+  (count_open (fp_open_failing k) = 0 /\ length (fp_open_failing k) = k) /\ count_open (fp_exit hs) = 0.
+Proof. intros k hs. split; [apply filepool_failing_open_leaks_nothing | apply filepool_exit_none_open]. Qed.
+Print Assumptions C20_filepool_failing_open.
+
 (* regression witness of the repaired defect (history): with the original flush a child's later file survived *)
 Theorem C20_orig_flush_leaks :
   let ops := [(0, TCreate); (0, TFork); (0, TFlush); (1, TCreate); (0, TFlush)] in
